@@ -554,6 +554,13 @@ fn harness_rev() -> String {
         .unwrap_or_default()
 }
 
+/// Re-execute a replay file in a fresh process; Ok(true) iff it exits 1 (reproduced).
+fn replay_reproduces(path: &str) -> Result<bool, String> {
+    let exe = std::env::current_exe().map_err(|e| e.to_string())?;
+    let out = Command::new(exe).arg("replay").arg(path).stdout(Stdio::null()).stderr(Stdio::null()).status().map_err(|e| e.to_string())?;
+    Ok(out.code() == Some(1))
+}
+
 pub fn write_replay(ctx: &Ctx, engine: &dyn Engine, v: &Violation) -> String {
     let dir = verif_dir().join("replays").join(&ctx.property);
     let _ = std::fs::create_dir_all(&dir);
@@ -704,12 +711,26 @@ pub fn finish_run(engine: &dyn Engine, ctx: &Ctx, out: RunOutput, t0: Instant, w
         by_sig.entry(key).or_insert(v);
     }
     let mut replay_paths = Vec::new();
+    let mut harness_errors = out.harness_errors.clone();
     for v in by_sig.values() {
         let path = write_replay(ctx, engine, v);
         println!("VIOLATION property={} replay={}", ctx.property, path);
         println!("  class={} detail={}", v.class, v.detail);
+        // the replay file is re-executed in a fresh process before the violation is
+        // believed: if it does not reproduce, the harness itself is not deterministic
+        if std::env::var("VERIF_NO_REPLAY_CHECK").is_err() && !v.case.get("rerun_case_index").is_some() {
+            match replay_reproduces(&path) {
+                Ok(true) => println!("  replayed in a fresh process: reproduced"),
+                Ok(false) => {
+                    println!("  replayed in a fresh process: NOT reproduced");
+                    harness_errors.push(format!("replay {path} did not reproduce the violation (harness determinism broken?)"));
+                }
+                Err(e) => harness_errors.push(format!("could not run the replay of {path}: {e}")),
+            }
+        }
         replay_paths.push(path);
     }
+    let out = RunOutput { results: out.results, harness_errors, wall_s: out.wall_s };
     for e in &out.harness_errors {
         eprintln!("HARNESS-ERROR: {e}");
     }
@@ -778,7 +799,9 @@ pub fn finish_run(engine: &dyn Engine, ctx: &Ctx, out: RunOutput, t0: Instant, w
         known_seen.len(),
         wall
     );
-    if !by_sig.is_empty() {
+    if out.harness_errors.iter().any(|e| e.contains("did not reproduce")) {
+        2
+    } else if !by_sig.is_empty() {
         1
     } else if !out.harness_errors.is_empty() {
         2
